@@ -51,6 +51,7 @@ ChildEvent(e) ==
   LET hardened == e.in.index[1] = 1
       par == e.in.parent
   IN /\ e.out.panic = ""
+     /\ e.out.parent_unchanged                                    \* deriving children never modifies the parent object
      /\ IF ~Defined(e.in.curve, par.private, hardened)
         THEN ~e.out.ok /\ e.out.key = <<>>                        \* undefined derivations fail with an error
         ELSE
